@@ -64,6 +64,10 @@ type State struct {
 	// first touched later.
 	hvAll    bool
 	lazyRefs []string
+	// privRefs: cells of address-taken locals whose address provably never reaches unknown code
+	// (only passed to calls with contracts / intrinsics, not captured by escaping closures):
+	// unknown calls cannot change them
+	privRefs []string
 	pc   *pcNode
 	held map[string]bool // mutexes held (by printed expression)
 	// oldHeap: guarded heap arrays as they were when this path first acquired their lock; old() of
